@@ -84,6 +84,46 @@ T = {
  "C19-D": ("C19", "Clone for Terminal rebuilds n: as j:", "clone of a bare Terminal whose top node is n:"),
  "C20-C": ("C20", "DefiniteDescriptorKey loses is_uncompressed (as C04-C)", "translate_pk to an uncompressed DefiniteDescriptorKey in segwit / taproot"),
  "C20-D": ("C20", "ForEachKey for Miniscript skips SortedMultiA", "tr with a sortedmulti_a leaf"),
+ "C01-E": ("C01", "Placeholder::satisfy_self Pubkey arm decides x-only by the key's own form instead of the context's pk_len", "tr leaf with pkh() on the path and a full (33-byte / xpub) key"),
+ "C01-F": ("C01", "RelLockTime::max compares raw values (as C17-D, written independently)", "two same-unit older() on a path, the smaller one with BIP68-ignored bits"),
+ "C02-E": ("C02", "Placeholder::PubkeyHash completion drops the lookup_raw_pkh_ecdsa_sig fallback", "decoded script (raw pkh), satisfier that knows the key only together with a signature"),
+ "C02-F": ("C02", "Sh::get_satisfaction_mall calls the non-malleable satisfier for sh(wsh(..))", "sh(wsh()) in malleable mode where only the malleable algorithm succeeds"),
+ "C03-E": ("C03", "Miniscript::get_nth_child drops the second child of or_c (duplicate-key check blind there)", "or_c whose right branch shares a key with the rest of the script"),
+ "C03-F": ("C03", "PsbtInputSatisfier::check_older only for nVersion == 2 (as C02-D, C03 angle)", "PSBT nVersion 3, older as unsigned alternative, extra signatures present"),
+ "C04-E": ("C04", "Correctness::sortedmulti_a input AnyNonZero (as C07-C)", "sortedmulti_a round trip: type differs / j:sortedmulti_a accepted"),
+ "C04-F": ("C04", "ParseableKey for bitcoin::PublicKey parses via secp (accepts hybrid 06/07 keys)", "script with a hybrid-encoded 65-byte key in Bare / Legacy"),
+ "C05-E": ("C05", "Malleability::or_i: wildcard arm grants Unique dissat when one side is Unknown", "or_i with a forced branch and a branch with unknown dissatisfaction"),
+ "C05-F": ("C05", "Correctness::threshold skips the unit check for the first child (as C06-A)", "thresh whose first child is dissatisfiable but not unit"),
+ "C06-E": ("C06", "Miniscript::expr_raw_pkh constructor carries the type of pk_k", "raw pkh through the constructor path (text with raw pkh allowed, script decoder)"),
+ "C06-F": ("C06", "older encoder pushes relative::LockTime-converted value (as C04-B)", "older(65536) encodes as OP_0 CSV"),
+ "C07-E": ("C07", "Legacy::check_local_consensus_validity reads only max_exec_op_count", "sh script with more than 201 opcodes under 520 bytes built by from_ast / MAX parameters, then lift()"),
+ "C07-F": ("C07", "lexer maps OP_PUSHNUM_14 to 13", "script containing OP_14 as lock value or threshold"),
+ "C08-E": ("C08", "Policy::enumerate_leaves pushes the wrong variable (a branch disappears from the tap tree)", "compile_tr_private / native: or of a non-splittable and a splittable branch"),
+ "C08-F": ("C08", "Segwitv0::check_global_consensus_validity no longer checks pk_h keys", "compile to segwit v0 with an uncompressed bitcoin::PublicKey"),
+ "C09-E": ("C09", "Tr::max_weight_to_satisfy: control block length prefix from the script size", "tap leaf at depth >= 7 with a script under 253 bytes, spent through it"),
+ "C09-F": ("C09", "ExtData::or_c: max_exec_op_count max instead of sum", "or_c with multi on both sides, pre-taproot"),
+ "C10-E": ("C10", "Sh Display passes the alternate flag to the inner miniscript", "sh(ms) containing after() or a hash"),
+ "C10-F": ("C10", "checksum CHAR_MAP: '.' shares the value of '-'", "strings containing '.' (only String key names)"),
+ "C11-E": ("C11", "ExtData::or_i tree_height ignores the right child (depth limit blind, stack overflow)", "100k l: wrappers / deep IF 0 ELSE nesting in tapscript"),
+ "C11-F": ("C11", "at_derivation_index skips DefiniteDescriptorKey::new (hardened step after xpub reaches unreachable!)", "xpub/1h/* descriptor, derive then use"),
+ "C12-E": ("C12", "get_nth_child drops the second child of or_c (as C03-E; validate switches blind there)", "or_c with the defect only in its right branch"),
+ "C12-F": ("C12", "DefiniteDescriptorKey loses is_uncompressed (as C04-C / C20-C)", "DefiniteDescriptorKey with an uncompressed key in segwit / taproot"),
+ "C13-E": ("C13", "interpreter Multi arm does not consume a matched key", "multi k>=2, witness with the same signature twice"),
+ "C13-F": ("C13", "from_txdata P2TR: annex detected without the two-element requirement", "key-path spend whose signature starts with 0x50"),
+ "C14-E": ("C14", "PsbtInputSatisfier::lookup_hash256 converts the hash via its (reversed) string form", "descriptor with hash256(), preimage supplied through the PSBT"),
+ "C14-F": ("C14", "update_item_with_descriptor_helper: a rejected update still writes into the PSBT", "update with a mismatching descriptor, then the right one"),
+ "C15-E": ("C15", "TapTree fmt_helper closes braces lazily and loses a level", "tree where a non-last leaf completes two or more nested branches"),
+ "C15-F": ("C15", "TapTree::translate_pk rebuilds through the builder opening at most one level per leaf", "key translation of a tree that does not lean right"),
+ "C16-E": ("C16", "Miniscript::for_each_key loses sortedmulti_a keys (as C20-D)", "tr(fixed key, sortedmulti_a(k, xpub/<0;1>/*, ..))"),
+ "C16-F": ("C16", "PSBT updater returns the witness script as redeem script of sh(wsh())", "sh(wsh()) PSBT input / output update"),
+ "C17-E": ("C17", "is_key_direct_child_of matches every descendant of a key source", "asset key source two or more levels above the descriptor key"),
+ "C17-F": ("C17", "Plan::scriptsig_size: OP_PUSHDATA1 boundary (as C09-C)", "plain sh(ms) with a 76-byte redeem script"),
+ "C18-E": ("C18", "minimum_n_keys sums Option with early exit (work stack corrupted)", "conjunction with an unsatisfiable non-last child nested under another threshold, not normalized"),
+ "C18-F": ("C18", "concrete timelock_info: time-based older recorded as cltv_with_time", "concrete policy with a time-based older() in a conjunction"),
+ "C19-E": ("C19", "concrete Policy::variant_name labels Hash160 'hash256'", "hash160 vs hash256 concrete policy pair"),
+ "C19-F": ("C19", "Ord for Tr compares leaves without their depths", "same leaves, different tree shapes"),
+ "C20-E": ("C20", "get_nth_child drops the second child of or_c (as C03-E; iter_pk misses keys)", "or_c with a key in its right child"),
+ "C20-F": ("C20", "translate_pk_ctx rebuilds a: as s:", "any key translation of a miniscript using the a: wrapper"),
 }
 
 def main():
@@ -94,7 +134,7 @@ def main():
         for line in open(mlog):
             m = re.match(r'##### (\S+)', line)
             if m:
-                cur = m.group(1); res.setdefault(cur, []); continue
+                cur = m.group(1); res[cur] = []; continue
             m = re.match(r'\[(C\d\d)\] (DETECTED|missed): (.*)', line)
             if m and cur:
                 res[cur].append({"check": m.group(1), "result": m.group(2).lower(), "detail": m.group(3).strip()[:300]})
